@@ -906,3 +906,26 @@ def compact(o: dict[str, Any]) -> str:
 
 def compact_r(r: dict[str, Any]) -> str:
     return "{" + ",".join(f"{k}={v}" for k, v in r.items() if v != R0[k] or k == "k") + "}"
+
+
+def replay(ctx: Ctx, data: dict[str, Any]) -> int:
+    """Re-run the recorded operation sequence on a fresh pair of applications and let TLC judge it again."""
+    seq = data.get("sequence") or []
+    if not seq:
+        print("  no sequence in the replay file")
+        return 0
+    P = Pair()
+    try:
+        tr = P.run(seq)
+    finally:
+        P.close()
+    verdicts, _ = tlc.validate_traces("BackendsTrace", "BackendsTrace.cfg", [tr], timeout=600)
+    v = verdicts[0]
+    for k, e in enumerate(tr, start=1):
+        mark = " <== " + ",".join(sorted({f for s_, f in v.flags if s_ == k})) if any(s_ == k for s_, _f in v.flags) else ""
+        print(f"  {k:3d} {compact(e['a'])}: mem={compact_r(e['mem'])} sql={compact_r(e['sql'])}{mark}")
+    if v.flags:
+        print(f"VIOLATION property=C16 replay={ctx.prop}: still diverges at step {min(s_ for s_, _f in v.flags)}")
+        return 1
+    print("  the sequence no longer diverges")
+    return 0
